@@ -55,7 +55,7 @@ type Verifier struct {
 	pureCalls        map[string]bool
 	symDepth         int
 	opaqueCalls      bool
-	lastCallQual     string // qualified name of the call being anchored (binary.Write, io.Writer.Write): cut targets may use it
+	lastCallQual     string           // qualified name of the call being anchored (binary.Write, io.Writer.Write): cut targets may use it
 	cutFired         map[int]bool     // cuts of the function under analysis that matched an anchor on some path of some partition
 	nullableResults  bool             // option nullable-results
 	opaqueWrites     map[string][]int // option opaque-writes F:k: the opaque callee F overwrites what its k-th argument (receiver = 0) points to
